@@ -19,7 +19,7 @@ ex = Exploration(body, cfg, max_paths=cfg.get("max_paths", 4000)).run()
 print("paths", ex.paths, "infeasible", ex.infeasible, "unsupported", ex.unsupported[:5])
 for vc in ex.vcs:
     discharge(vc)
-    if vc.verdict != "unsat":
+    if vc.verdict != "unsat" or "-all" in sys.argv:
         print("----", vc.name, vc.verdict, vc.reason, "path", vc.path_id, f"{vc.seconds:.2f}s")
         if vc.model is not None and "-v" in sys.argv:
             for d in vc.model.decls():
